@@ -30,6 +30,8 @@ Definition transfer_delegation (e : env) (s : state) (i from to : nat) (sh : Z) 
     | Err => Err
     | Panic => Panic
     | Ok s1 issued =>
+      (* shares worth less than one token unbond nothing: nothing is re-delegated *)
+      if issued =? 0 then Ok s1 0 else
       if negb (v_exists (vals s1 i)) then Err else     (* delegateFromAccount: validator gone *)
       delegate s1 to i issued false
     end
@@ -41,11 +43,13 @@ Definition mint (e : env) (s : state) (a i : nat) (amt : Z) : outcome state Z :=
   match validate_unbond_amount s a i amt with
   | None => Err
   | Some sh =>
-    let minted := dec_trunc_int sh in
     match transfer_delegation e s i a (liq e) sh with
     | Err => Err
     | Panic => Panic
-    | Ok s1 _ =>
+    | Ok s1 recv =>
+      (* only what the module account received is minted; nothing to mint is an error *)
+      let minted := Z.min (dec_trunc_int sh) (dec_trunc_int recv) in
+      if minted <=? 0 then Err else
       Ok (set_dsup (set_dbal s1 a i (dbal s1 a i + minted)) i (dsup s1 i + minted)) minted
     end
   end.
@@ -228,7 +232,7 @@ Definition output_eqb (a b : output) : bool :=
 Definition inv_b (e : env) (s : state) : bool :=
   forallb (fun i =>
     let v := vals s i in
-    (0 <=? v_tokens v) && (0 <=? v_shares v) && (0 <=? v_minself v) &&
+    (0 <=? v_tokens v) && (0 <=? v_shares v) &&
     (negb (v_exists v) || (v_shares v =? sumN (nacc e) (fun a => dshares s a i))) &&
     (dsup s i =? sumN (nacc e) (fun a => held s a i))) (seq 0 (nval e)) &&
   forallb (fun a => (0 <=? bal s a) && (0 <=? ubd s a) &&
